@@ -3,10 +3,11 @@
             (each step: SetReader(text) on the SAME instance, then the calls)
           | L [I 1; L [expression-input ...]]     expressions set one after another on the SAME parser (inputs as for C02)
    output = L [L [obs ...] ...]  per step; obs = L [I 0; I bool] | L [I 1; token] | L [I 1] (nil) | L [I (-999)]
-          | L [result ...]  per expression, as for C02 *)
+          | L [result ...]  per expression, as for C02
+          | L [I 2; L [template-input ...]]      templates set one after another on the SAME template object (inputs as for C10) *)
 From Coq Require Import List ZArith Bool.
 Import ListNotations.
-Require Import Sx Base Cursor Tokenizer Instance Instances TokModel RunTok RunC02.
+Require Import Sx Base Cursor Tokenizer Instance Instances TokModel RunTok RunC02 RunC10.
 Open Scope Z_scope.
 
 Section Run.
@@ -71,5 +72,6 @@ Definition model_C05 (input : sx) : sx :=
                | 2 => TCsv (gstr (nth_sx 0 (nth_sx 2 input))) (gstr (nth_sx 1 (nth_sx 2 input)))
                | _ => TMustache end in
       L (run_tokenizer_history k (opts_of_bits (gz (nth_sx 3 input))) (gl (nth_sx 4 input)))
-  | _ => L (map model_C02 (gl (nth_sx 1 input)))
+  | 1 => L (map model_C02 (gl (nth_sx 1 input)))
+  | _ => L (map model_C10 (gl (nth_sx 1 input)))
   end.
